@@ -218,6 +218,7 @@ pub struct Built {
     pub fresh: Option<(Arguments, bool)>,
     /// number of runs that were also replayed on a fresh instance whose `commit()` was never called
     pub fresh_runs: std::sync::atomic::AtomicUsize,
+    pub fresh_pruned_runs: std::sync::atomic::AtomicUsize,
 }
 
 /// How many runs per built program are repeated on a fresh `instantiate` result that is satisfied before
@@ -241,7 +242,7 @@ pub fn build(text: &str, args: Arguments, debug: bool) -> Result<Built, CompileO
         Ok(c) => c,
         Err(p) => return Err(CompileOutcome::Panic(format!("commit: {p}"))),
     };
-    Ok(Built { template, compiled, cmr, fresh, fresh_runs: Default::default() })
+    Ok(Built { template, compiled, cmr, fresh, fresh_runs: Default::default(), fresh_pruned_runs: Default::default() })
 }
 
 struct OnRef<'a> {
@@ -422,6 +423,24 @@ pub fn env_with(lock_time: u32, sequence: u32) -> Env {
 
 /// satisfy_with_env(Some(env)) -> redeem CMR check -> encode -> decode -> exec under `env`.
 pub fn run_pruned(built: &Built, witness: WitnessValues, env: &Env) -> RunOutcome {
+    let committed = run_pruned_on(&built.compiled, built.cmr, witness.clone(), env);
+    if let Some((args, debug)) = &built.fresh {
+        if built.fresh_pruned_runs.fetch_add(1, std::sync::atomic::Ordering::Relaxed) < FRESH_RUNS_PER_PROGRAM {
+            let fresh = match guard(|| built.template.instantiate(args.clone(), *debug)) {
+                Ok(Ok(c)) => run_pruned_on(&c, built.cmr, witness, env),
+                Ok(Err(e)) => RunOutcome::SatisfyErr(format!("second instantiate failed: {e}")),
+                Err(p) => RunOutcome::SatisfyPanic(format!("second instantiate: {p}")),
+            };
+            if fresh.class() != committed.class() {
+                return RunOutcome::OrderDependent(format!("satisfy_with_env before any commit(): {fresh:?}; after commit(): {committed:?}"));
+            }
+        }
+    }
+    committed
+}
+
+pub fn run_pruned_on(compiled: &CompiledProgram, cmr: Cmr, witness: WitnessValues, env: &Env) -> RunOutcome {
+    let built = OnRef { compiled, cmr };
     let sat = match guard(|| built.compiled.satisfy_with_env(witness, Some(env))) {
         Ok(Ok(s)) => s,
         Ok(Err(e)) => return RunOutcome::SatisfyErr(e),
